@@ -219,7 +219,8 @@ def store_level(ctx, R):
                   'TrackStore::add constructs a Track inline (%s) instead of going through the builder / '
                   'add_observation: optimize, validation and notification are skipped' % (raw or 'no build call'))
     # worker Merge arm forwards Track::merge's result
-    h = ctx.anchor(R, 'track::store::TrackStore::handle_store_ops')
+    import storelib as _S
+    h = ctx.anchor(R, _S.WORKER)
     if h is not None:
         merges = h.find_calls('track::Track::merge')
         ctx.check(len(merges) >= 1, R, h, 'worker:merge-calls', '%d Track::merge call(s) in the worker' % len(merges),
